@@ -193,11 +193,11 @@ Ltac step_adc :=
 Lemma mont_reduce_spec r0 r1 r2 r3 r4 r5 :
   wf64 r0 -> wf64 r1 -> wf64 r2 -> wf64 r3 -> wf64 r4 -> wf64 r5 ->
   val6 r0 r1 r2 r3 r4 r5 < p * (W * W * W) ->
-  let r := g_mont_reduce r0 r1 r2 r3 r4 r5 in
+  let r := gl_mont_reduce r0 r1 r2 r3 r4 r5 in
   lwf r /\ lval r < p /\ exists K, lval r * (W * W * W) = val6 r0 r1 r2 r3 r4 r5 + K * p.
 Proof.
   intros H0 H1 H2 H3 H4 H5 HT.
-  cbv beta iota zeta delta [g_mont_reduce MODULUS_LIMBS].
+  cbv beta iota zeta delta [gl_mont_reduce MODULUS_LIMBS].
   step_mac_inv. step_mac. step_mac. step_adc.
   step_mac_inv. step_mac. step_mac. step_adc.
   step_mac_inv. step_mac. step_mac. step_adc.
@@ -224,13 +224,13 @@ Qed.
 Definition W3 : Z := W * W * W.
 Lemma p_lt_W3 : p < W3. Proof. reflexivity. Qed.
 
-Lemma g_mul_spec a b : lwf a -> lwf b -> lval a < p -> lval b < p ->
-  lwf (g_mul a b) /\ lval (g_mul a b) < p /\ exists K, lval (g_mul a b) * W3 = lval a * lval b + K * p.
+Lemma gl_mul_spec a b : lwf a -> lwf b -> lval a < p -> lval b < p ->
+  lwf (gl_mul a b) /\ lval (gl_mul a b) < p /\ exists K, lval (gl_mul a b) * W3 = lval a * lval b + K * p.
 Proof.
   destruct a as [[a0 a1] a2], b as [[b0 b1] b2]. intros (A0 & A1 & A2) (B0 & B1 & B2) HA HB.
-  cbv beta iota zeta delta [g_mul].
+  cbv beta iota zeta delta [gl_mul].
   do 9 step_mac.
-  match goal with |- context [g_mont_reduce ?x0 ?x1 ?x2 ?x3 ?x4 ?x5] =>
+  match goal with |- context [gl_mont_reduce ?x0 ?x1 ?x2 ?x3 ?x4 ?x5] =>
     assert (HV : val6 x0 x1 x2 x3 x4 x5 = lval (a0, a1, a2) * lval (b0, b1, b2));
       [|pose proof (mont_reduce_spec x0 x1 x2 x3 x4 x5 ltac:(wfs) ltac:(wfs) ltac:(wfs) ltac:(wfs) ltac:(wfs) ltac:(wfs)) as HM]
   end.
@@ -297,17 +297,17 @@ Ltac abstract_shifts :=
       set (t := shr64 x 63) in *; clearbody t
   end.
 
-Lemma g_square_spec a : lwf a -> lval a < p ->
-  lwf (g_square a) /\ lval (g_square a) < p /\ exists K, lval (g_square a) * W3 = lval a * lval a + K * p.
+Lemma gl_square_spec a : lwf a -> lval a < p ->
+  lwf (gl_square a) /\ lval (gl_square a) < p /\ exists K, lval (gl_square a) * W3 = lval a * lval a + K * p.
 Proof.
   destruct a as [[a0 a1] a2]. intros (A0 & A1 & A2) HA.
-  cbv beta iota zeta delta [g_square].
+  cbv beta iota zeta delta [gl_square].
   do 3 step_mac.
   abstract_shifts.
   try match goal with |- context [adc (shr64 ?x 63) _ _] =>
     pose proof (shr63_spec x ltac:(wfs)); set (t5 := shr64 x 63) in *; clearbody t5 end.
   step_mac. step_adc. step_mac. step_adc. step_mac. step_adc.
-  match goal with |- context [g_mont_reduce ?x0 ?x1 ?x2 ?x3 ?x4 ?x5] =>
+  match goal with |- context [gl_mont_reduce ?x0 ?x1 ?x2 ?x3 ?x4 ?x5] =>
     assert (HV : val6 x0 x1 x2 x3 x4 x5 = lval (a0, a1, a2) * lval (a0, a1, a2));
       [|pose proof (mont_reduce_spec x0 x1 x2 x3 x4 x5 ltac:(wfs) ltac:(wfs) ltac:(wfs) ltac:(wfs) ltac:(wfs) ltac:(wfs)) as HM]
   end.
@@ -431,12 +431,12 @@ Proof.
 Qed.
 Theorem lmul_correct a b : lvalid a -> lvalid b -> lvalid (lmul a b) /\ labs (lmul a b) = fmul (labs a) (labs b).
 Proof.
-  intros (Ha & Hap) (Hb & Hbp). destruct (g_mul_spec a b Ha Hb Hap Hbp) as (Hw & Hlt & K & E).
+  intros (Ha & Hap) (Hb & Hbp). destruct (gl_mul_spec a b Ha Hb Hap Hbp) as (Hw & Hlt & K & E).
   split; [split; assumption|]. exact (labs_mul_gen _ _ _ K E).
 Qed.
 Theorem lsquare_correct a : lvalid a -> lvalid (lsquare a) /\ labs (lsquare a) = fsquare (labs a).
 Proof.
-  intros (Ha & Hap). destruct (g_square_spec a Ha Hap) as (Hw & Hlt & K & E).
+  intros (Ha & Hap). destruct (gl_square_spec a Ha Hap) as (Hw & Hlt & K & E).
   split; [split; assumption|]. exact (labs_mul_gen _ _ _ K E).
 Qed.
 Corollary lsquare_is_mul a : lvalid a -> lsquare a = lmul a a.
@@ -517,11 +517,11 @@ Lemma labs_lone : labs lone = fone. Proof. apply fp_eq. vm_compute. reflexivity.
 Lemma lzero_valid : lvalid lzero. Proof. unfold lvalid, lzero, lwf, lval, wf64, W. cbn. split; [lia|reflexivity]. Qed.
 Lemma labs_lzero : labs lzero = fzero. Proof. apply fp_eq. reflexivity. Qed.
 Lemma chain_limbs ch a : lvalid a ->
-  lvalid (chain_run limbs g_square g_mul lone ch a) /\
-  labs (chain_run limbs g_square g_mul lone ch a) = chain_run fp fsquare fmul fone ch (labs a).
+  lvalid (chain_run limbs gl_square gl_mul lone ch a) /\
+  labs (chain_run limbs gl_square gl_mul lone ch a) = chain_run fp fsquare fmul fone ch (labs a).
 Proof.
   intros Ha.
-  apply (chain_sim limbs fp g_square g_mul lone fsquare fmul fone (fun t u => lvalid t /\ labs t = u)).
+  apply (chain_sim limbs fp gl_square gl_mul lone fsquare fmul fone (fun t u => lvalid t /\ labs t = u)).
   - split; [exact lone_valid|exact labs_lone].
   - intros t u (Ht & <-). exact (lsquare_correct t Ht).
   - intros t u t' u' (Ht & <-) (Ht' & <-). exact (lmul_correct t t' Ht Ht').
@@ -570,7 +570,7 @@ Lemma fsqrt_of_candidate (x r : fp) : r = fpow x ((p + 1) / 4) ->
   fsqrt x = if feqb (fmul r r) x then Some r else None.
 Proof. intros ->. reflexivity. Qed.
 Lemma lsqrt_unfold a :
-  lsqrt a = if leqb (g_mul (lsqrt_raw a) (lsqrt_raw a)) a then Some (lsqrt_raw a) else None.
+  lsqrt a = if leqb (gl_mul (lsqrt_raw a) (lsqrt_raw a)) a then Some (lsqrt_raw a) else None.
 Proof. reflexivity. Qed.
 Lemma lsqrt_raw_spec a : lvalid a -> lvalid (lsqrt_raw a) /\ labs (lsqrt_raw a) = fpow (labs a) ((p + 1) / 4).
 Proof.
@@ -587,7 +587,7 @@ Proof.
   generalize dependent (lsqrt_raw a). intros s V Eq.
   destruct (lmul_correct s s V V) as (Vm & Em). unfold lmul in Vm, Em.
   rewrite (fsqrt_of_candidate (labs a) (labs s) Eq).
-  destruct (leqb (g_mul s s) a) eqn:L.
+  destruct (leqb (gl_mul s s) a) eqn:L.
   - apply leqb_spec in L. split; [exact V|].
     assert (F : feqb (fmul (labs s) (labs s)) (labs a) = true) by (apply feqb_eq; rewrite <- Em, L; reflexivity).
     rewrite F. reflexivity.
@@ -595,4 +595,144 @@ Proof.
     { apply feqb_neq. intros H. rewrite <- Em in H. apply (labs_inj _ _ Vm Ha) in H.
       apply leqb_spec in H. rewrite H in L. discriminate L. }
     rewrite F. reflexivity.
+Qed.
+
+(* ---------- to_repr / from_repr / From<u64> (at the level of the limbs that are written / read) ---------- *)
+Theorem lto_canon_correct a : lvalid a -> lvalid (lto_canon a) /\ lval (lto_canon a) = val (labs a).
+Proof.
+  destruct a as [[a0 a1] a2]. intros ((A0 & A1 & A2) & Hap). unfold lto_canon.
+  assert (HT : val6 a0 a1 a2 0 0 0 < p * (W * W * W)).
+  { unfold val6. unfold lval in Hap. pose proof p_pos. unfold W2, wf64, W in *. nia. }
+  destruct (mont_reduce_spec a0 a1 a2 0 0 0 A0 A1 A2 ltac:(wfs) ltac:(wfs) ltac:(wfs) HT) as (Hw & Hlt & K & E).
+  split; [split; assumption|].
+  set (r := gl_mont_reduce a0 a1 a2 0 0 0) in *. clearbody r.
+  pose proof (lval_range r Hw) as Rr.
+  unfold labs. rewrite val_mkfp.
+  rewrite <- (Z.mod_small (lval r) p) by lia. rewrite <- (W3_rinv_cancel (lval r)). unfold W3. rewrite E.
+  replace (val6 a0 a1 a2 0 0 0) with (lval (a0, a1, a2)) by (unfold val6, lval, W2, W; ring).
+  replace ((lval (a0, a1, a2) + K * p) * mont_rinv) with (lval (a0, a1, a2) * mont_rinv + (K * mont_rinv) * p) by ring.
+  apply Z_mod_plus_full.
+Qed.
+Lemma labs_R2 : labs R2 = mkfp W3. Proof. apply fp_eq. vm_compute. reflexivity. Qed.
+Lemma R2_valid : lvalid R2. Proof. unfold lvalid, R2, lwf, lval, wf64, W2, W. cbn. split; [lia|reflexivity]. Qed.
+Lemma to_mont_correct r : lvalid r -> lvalid (gl_mul r R2) /\ labs (gl_mul r R2) = mkfp (lval r).
+Proof.
+  intros Hr. destruct (lmul_correct r R2 Hr R2_valid) as (V & E). unfold lmul in *. split; [exact V|].
+  rewrite E, labs_R2. unfold labs, fmul. rewrite !val_mkfp. apply mkfp_eq_iff.
+  rewrite <- Zmult_mod. replace (lval r * mont_rinv * W3) with (lval r * W3 * mont_rinv) by ring. apply W3_rinv_cancel.
+Qed.
+Theorem lfrom_canon_correct r : lwf r ->
+  match lfrom_canon r with
+  | Some t => lval r < p /\ lvalid t /\ labs t = mkfp (lval r)
+  | None => p <= lval r
+  end.
+Proof.
+  intros Hr. pose proof Hr as Hr'. destruct r as [[r0 r1] r2]. destruct Hr' as (A0 & A1 & A2).
+  cbv beta iota zeta delta [lfrom_canon LM MODULUS_LIMBS].
+  destruct (sbb r0 12451 0) as [l0 b0] eqn:E0. apply sbb_spec in E0; try wfs; [|apply bw_ok_0]. destruct E0 as (E0 & L0 & B0).
+  destruct (sbb r1 0 b0) as [l1 b1] eqn:E1. apply sbb_spec in E1; try wfs. destruct E1 as (E1 & L1 & B1).
+  destruct (sbb r2 1 b1) as [l2 b2] eqn:E2. apply sbb_spec in E2; try wfs. destruct E2 as (E2 & L2 & B2).
+  assert (Hb : bw_bit b2 = if lval (r0, r1, r2) <? p then 1 else 0).
+  { unfold bw_bit in *. replace (0 =? 0) with true in E0 by reflexivity.
+    destruct (Z.ltb_spec (lval (r0, r1, r2)) p); destruct (b0 =? 0), (b1 =? 0), (b2 =? 0);
+      unfold lval, p, Params.modulus, wf64, W2, W in *; lia. }
+  destruct B2 as [-> | ->].
+  - change (Z.land (0 mod 256) 1 =? 1) with false. cbv iota.
+    unfold bw_bit in Hb. change (0 =? 0) with true in Hb. destruct (Z.ltb_spec (lval (r0, r1, r2)) p); [discriminate Hb|assumption].
+  - change (Z.land ((W - 1) mod 256) 1 =? 1) with true. cbv iota.
+    unfold bw_bit in Hb. change (W - 1 =? 0) with false in Hb.
+    destruct (Z.ltb_spec (lval (r0, r1, r2)) p) as [Hlt | Hge]; [|discriminate Hb].
+    split; [exact Hlt|]. apply to_mont_correct. split; assumption.
+Qed.
+Corollary lfrom_u64_correct v : wf64 v -> lvalid (lfrom_u64 v) /\ labs (lfrom_u64 v) = mkfp v.
+Proof.
+  intros Hv. assert (Hval : lvalid (v, 0, 0)).
+  { split; [unfold lwf, wf64, W in *; lia|]. unfold lval, p, Params.modulus, wf64, W in *. lia. }
+  destruct (to_mont_correct (v, 0, 0) Hval) as (V & E). split; [exact V|]. unfold lfrom_u64. rewrite E.
+  f_equal. unfold lval. ring.
+Qed.
+Theorem lrandom_round_correct w0 w1 w2 t : wf64 w0 -> wf64 w1 -> wf64 w2 ->
+  lrandom_round w0 w1 w2 = Some t -> lvalid t /\ t = (w0, w1, Z.land w2 1).
+Proof.
+  intros H0 H1 H2. unfold lrandom_round, LM. change (shr64 (W - 1) GEN_REPR_SHAVE_BITS) with 1.
+  assert (Hw : lwf (w0, w1, Z.land w2 1)).
+  { unfold lwf. repeat split; try apply H0; try apply H1.
+    - apply Z.land_nonneg. right. lia.
+    - change 1 with (Z.ones 1). rewrite Z.land_ones by lia. pose proof (Z.mod_pos_bound w2 (2 ^ 1) ltac:(lia)). unfold W. change (2 ^ 1) with 2 in *. lia. }
+  rewrite (is_valid_spec _ Hw). destruct (Z.ltb_spec (lval (w0, w1, Z.land w2 1)) p) as [Hlt | Hge]; [|discriminate].
+  intros E. injection E as <-. split; [split; assumption|reflexivity].
+Qed.
+
+(* ---------- the constants the macro computed ---------- *)
+Theorem limb_constants :
+  lval R = W3 mod p /\ lval R2 = (W3 * W3) mod p /\ (INV * 12451 + 1) mod W = 0 /\
+  lvalid TWO_INV /\ labs TWO_INV = f_two_inv /\ lvalid GENERATOR /\ labs GENERATOR = f_gen /\
+  lvalid ROOT_OF_UNITY /\ labs ROOT_OF_UNITY = f_rou /\ lvalid ROOT_OF_UNITY_INV /\ labs ROOT_OF_UNITY_INV = f_rou_inv /\
+  lvalid DELTA /\ labs DELTA = f_delta /\ GEN_S = f_S /\ GEN_MODULUS_BITS = f_num_bits /\
+  lval MODULUS_LIMBS = Params.modulus /\ Params.fp_limbs = 3%nat.
+Proof.
+  assert (V : forall c : limbs, (let '(c0, c1, c2) := c in
+             (0 <=? c0) && (c0 <? W) && (0 <=? c1) && (c1 <? W) && (0 <=? c2) && (c2 <? W) && (lval c <? p)) = true -> lvalid c).
+  { intros [[c0 c1] c2]. rewrite !andb_true_iff, !Z.leb_le, !Z.ltb_lt. unfold lvalid, lwf, wf64. tauto. }
+  repeat match goal with |- _ /\ _ => split; [first [reflexivity | (apply V; vm_compute; reflexivity) | (apply fp_eq; vm_compute; reflexivity)]|] end.
+  reflexivity.
+Qed.
+
+(* ---------- pow_vartime (ff::Field's square-and-multiply over u64 exponent words) ---------- *)
+Fixpoint pow_word_fp (x : fp) (e : Z) (i : nat) (u : fp) : fp :=
+  match i with
+  | O => u
+  | S i' => let u := fsquare u in
+            let u := if Z.testbit e (Z.of_nat i') then fmul u x else u in
+            pow_word_fp x e i' u
+  end.
+Lemma pow_word_sim a e : lvalid a -> forall i res, lvalid res ->
+  lvalid (pow_word a e i res) /\ labs (pow_word a e i res) = pow_word_fp (labs a) e i (labs res).
+Proof.
+  intros Ha. induction i as [|i IH]; intros res Hr; cbn [pow_word pow_word_fp]; [split; [exact Hr|reflexivity]|].
+  destruct (lsquare_correct res Hr) as (V1 & E1). unfold lsquare in *.
+  destruct (Z.testbit e (Z.of_nat i)).
+  - destruct (lmul_correct (gl_square res) a V1 Ha) as (V2 & E2). unfold lmul in *.
+    destruct (IH _ V2) as (V3 & E3). split; [exact V3|]. rewrite E3, E2, E1. reflexivity.
+  - destruct (IH _ V1) as (V3 & E3). split; [exact V3|]. rewrite E3, E1. reflexivity.
+Qed.
+Lemma mod_pow2_succ e n : 0 <= n -> e mod 2 ^ (n + 1) = e mod 2 ^ n + 2 ^ n * Z.b2z (Z.testbit e n).
+Proof.
+  intros Hn. rewrite Z.pow_add_r by lia. change (2 ^ 1) with 2.
+  rewrite Z.rem_mul_r by (try apply Z.pow_nonzero; lia). rewrite Z.testbit_spec' by lia. reflexivity.
+Qed.
+Lemma pow_word_fp_spec x e : forall i k, 0 <= k ->
+  pow_word_fp x e i (fpow x k) = fpow x (k * 2 ^ Z.of_nat i + e mod 2 ^ Z.of_nat i).
+Proof.
+  induction i as [|i IH]; intros k Hk.
+  - cbn [pow_word_fp]. change (2 ^ Z.of_nat 0) with 1. rewrite Z.mod_1_r. f_equal. ring.
+  - cbn [pow_word_fp]. rewrite Nat2Z.inj_succ, <- Z.add_1_r.
+    rewrite (mod_pow2_succ e (Z.of_nat i)) by lia. rewrite Z.pow_add_r by lia. change (2 ^ 1) with 2.
+    assert (Hsq : fsquare (fpow x k) = fpow x (2 * k)).
+    { replace (2 * k) with (k + k) by ring. rewrite fpow_add by lia. reflexivity. }
+    rewrite Hsq. destruct (Z.testbit e (Z.of_nat i)); cbn [Z.b2z].
+    + assert (Hm : fmul (fpow x (2 * k)) x = fpow x (2 * k + 1)).
+      { rewrite fpow_add by lia. rewrite fpow_1. reflexivity. }
+      rewrite Hm, IH by lia. f_equal. ring.
+    + rewrite IH by lia. f_equal. ring.
+Qed.
+Lemma fold_left_rev_fr {A B} (g : A -> B -> A) l i : fold_left g (rev l) i = fold_right (fun x acc => g acc x) i l.
+Proof.
+  induction l as [|x l IH]; cbn [rev fold_right]; [reflexivity|]. rewrite fold_left_app. cbn [fold_left]. rewrite IH. reflexivity.
+Qed.
+Definition words_val (exp : list Z) : Z := fold_right (fun e acc => e + W * acc) 0 exp.
+Theorem lpow_vartime_correct a exp : lvalid a -> Forall wf64 exp ->
+  lvalid (lpow_vartime a exp) /\ labs (lpow_vartime a exp) = fpow (labs a) (words_val exp).
+Proof.
+  intros Ha Hexp. unfold lpow_vartime. rewrite fold_left_rev_fr.
+  assert (G : lvalid (fold_right (fun e res => pow_word a e 64 res) lone exp) /\ 0 <= words_val exp /\
+              labs (fold_right (fun e res => pow_word a e 64 res) lone exp) = fpow (labs a) (words_val exp)).
+  { induction Hexp as [|e l He Hl IH]; cbn [fold_right words_val].
+    - split; [exact lone_valid|]. split; [lia|]. rewrite labs_lone. symmetry. apply fpow_0.
+    - destruct IH as (V & Hnn & E). fold (words_val l) in *.
+      destruct (pow_word_sim a e Ha 64 _ V) as (V2 & E2). split; [exact V2|].
+      split; [unfold wf64, W in *; lia|].
+      rewrite E2, E, pow_word_fp_spec by exact Hnn. f_equal.
+      change (2 ^ Z.of_nat 64) with W. rewrite Z.mod_small by exact He. ring. }
+  destruct G as (V & _ & E). split; assumption.
 Qed.
